@@ -151,8 +151,13 @@ def part_json(ctx, n):
     rnd = ctx.rng
     args = corpus_outs() + [rand_arg(rnd, '/var/tmp/x') for _ in range(n)]
     real = in_child(cli_stub.json_expr_cases, str(fw.SRC), args)
-    terms = [f'opt_eqb (json_path {qconv.coq_bytes(a)}) {sopt(r)}' for a, r in zip(args, real)]
-    for a, r in zip(args, real):
+    real_client = in_child(cli_stub.client_json_cases, str(fw.SRC), args)
+    terms = [f'opt_eqb (json_path {qconv.coq_bytes(a)}) {sopt(r)} && opt_eqb (client_json_path {qconv.coq_bytes(a)}) {sopt(c)}'
+             for a, r, c in zip(args, real, real_client)]
+    for a, r, c in zip(args, real, real_client):
+        if c != r:
+            ctx.violate('property', f'client-json-path:{shape(a)}', 'GeophiresXResult.json_output_file_path is not where GEOPHIRESv3.main writes the JSON',
+                        inp={'part': 'json', 'out': a}, expected=r, observed=c)
         p = Path(a)
         want = str(p.parent / (p.stem + '.json')) if p.name else None
         ctx.count('json-path', evaluations=1, nontrivial_keys=[a] if '/' in a else [], shapes={shape(a): 1})
@@ -161,8 +166,8 @@ def part_json(ctx, n):
                         inp={'part': 'json', 'out': a}, expected=want, observed=r)
     failing = fw.kernel_bools(ctx, 'json', ['Model.CliPaths'], terms, open_scope='string_scope')
     for i in failing[:5]:
-        ctx.violate('corr', 'json-path:model-disagrees', 'Coq model json_path and GEOPHIRESv3.main derive different JSON paths',
-                    inp={'part': 'json', 'out': args[i]}, observed=real[i])
+        ctx.violate('corr', 'json-path:model-disagrees', 'Coq model json_path / client_json_path and GEOPHIRESv3.main / GeophiresXResult '
+                    'derive different JSON paths', inp={'part': 'json', 'out': args[i]}, observed={'main': real[i], 'client': real_client[i]})
 
 
 # ------------------------------------------------------------------------------------------ (c) real command-line processes
@@ -250,8 +255,8 @@ def part_cli(ctx):
                             observed={'exit': ob['exit'], 'files': ob['new'], 'stderr': ob['stderr']})
             elif masked(ob['report']) != masked(ref['report']):
                 ctx.violate('property', 'cli-report:differs-from-direct', 'command line and direct pipeline give different case reports',
-                            inp=rec, observed=[(a, b) for a, b in zip(masked(ob['report']).splitlines(), masked(ref['report']).splitlines()) if a != b][:5])
-            elif json.loads(ob['json']) != json.loads(ref['json']):
+                            inp=rec, observed=[(a, b) for a, b in zip((masked(ob['report']) or '').splitlines(), (masked(ref['report']) or 'NO REPORT').splitlines()) if a != b][:5])
+            elif ref['json'] is None or json.loads(ob['json']) != json.loads(ref['json']):
                 ctx.violate('property', 'cli-json:differs-from-direct', 'command line and direct pipeline give different JSON', inp=rec)
         else:
             kind = 'bare-sys-exit' if code == 2 else ('missing-directory' if code == 0 else 'exception')
@@ -336,7 +341,7 @@ def part_client(ctx, ok_inputs, direct):
         res = list(ex.map(_client_job, jobs))
         mcj = []
         for k, (name, text) in enumerate(ok_inputs):
-            if direct[k]['ok']:
+            if direct[k]['ok'] and direct[k]['report']:
                 lines = direct[k]['report'].splitlines(keepends=True)
                 outs = [o for o in MC_OUTPUTS if mc_value(lines, o) is not None]
                 mcj.append((k, outs, ex.submit(_mc_job, (text, outs, str(ctx.scratch), str(fw.SRC)))))
@@ -353,7 +358,7 @@ def part_client(ctx, ok_inputs, direct):
             ctx.violate('property', f'client:outcome-differs:{mode}', 'client and direct pipeline disagree on success/failure', inp=rec,
                         expected=ref['error'], observed=r['error'])
         elif r['ok'] and (masked(r['report']) != masked(ref['report']) or not r['json_where_client_looks']
-                          or json.loads(r['json']) != json.loads(ref['json'])):
+                          or ref['json'] is None or json.loads(r['json']) != json.loads(ref['json'])):
             ctx.violate('property', f'client:report-differs:{mode}', 'client and direct pipeline give different report/JSON, or the JSON is not '
                         'where GeophiresXResult.json_output_file_path looks', inp=rec,
                         observed={'json_where_client_looks': r['json_where_client_looks']})
@@ -397,11 +402,13 @@ def replay(ctx, data):
         bad = seen is None or os.path.normpath(seen[2]) != want or (code != 0) != inp['fail']
     elif part == 'json':
         r = in_child(cli_stub.json_expr_cases, str(fw.SRC), [inp['out']])[0]
+        c = in_child(cli_stub.client_json_cases, str(fw.SRC), [inp['out']])[0]
+        print('GeophiresXResult.json_output_file_path:', c)
         p = Path(inp['out'])
         want = str(p.parent / (p.stem + '.json')) if p.name else None
         f = fw.kernel_bools(ctx, 'replay', ['Model.CliPaths'], [f'opt_eqb (json_path {qconv.coq_bytes(inp["out"])}) {sopt(r)}'], open_scope='string_scope')
         print('output argument', inp['out'], '-> JSON path of the implementation:', r, '| expected', want, '| Coq model json_path agrees:', not f)
-        bad = r != want
+        bad = r != want or c != r
     elif part == 'cli':
         ob = cli_case(ctx, 0, inp['text'], inp['cwd_rel'], inp['out'])
         print({k: ob[k] for k in ('cwd', 'inp', 'out', 'exit', 'new', 'dir_ok')})
